@@ -10,7 +10,7 @@
      cleanfn_correct  (dispatch_correct only) CleanPath computes the canonical
                       form [clean] -- C17's cleanpath_correct. *)
 From FoxBase Require Import Bytes.
-From FoxDispatch Require Import Dispatch Redirect DispatchSpec DispatchProofs DispatchTheorems Examples.
+From FoxDispatch Require Import Dispatch Redirect DispatchSpec DispatchProofs DispatchTheorems Corr SpecSound Examples.
 
 (* "the options handler runs with Allow listing exactly the methods that have a
    route serving that host and path ... plus OPTIONS - for the target '*', every
@@ -97,6 +97,15 @@ Theorem C11_serve_total :
   exists o, serve_http ignoreTS redirectTS cleanfn opts roots lookup rq c0 recp rect = Done o.
 Proof. exact (@serve_total). Qed.
 Print Assumptions C11_serve_total.
+
+(* the check's executable oracle for unserved requests (Corr.unserved_ok, evaluated on
+   every harness case) implies the specification above: accepted cases do satisfy it *)
+Theorem C11_oracle_sound :
+  forall (k : kase) (x : observed),
+  unserved_ok k x = true ->
+  unserved_spec rt_ign (k_opts k) (fun m => mem m (k_registered k)) (k_lookup k) (k_request k) (obs_of x).
+Proof. exact unserved_ok_sound. Qed.
+Print Assumptions C11_oracle_sound.
 
 (* non-vacuity: a concrete state meets every hypothesis above and reaches the
    405, OPTIONS (path and "*"), redirect, ignore and 404 answers *)
